@@ -1246,22 +1246,26 @@ class ReprStructure:
             self, body_records, *,
             _account_columns_names=True):
         """Calculate actual widths of columns using the actual records."""
+        # (the widths are stored in the columns only when all of them are
+        # detected: processing of a record may raise an exception)
         if _account_columns_names:
-            for col in self.columns:
-                title_width = col.get_title_width()
-                col.width = min(col.max_width, max(col.min_width, title_width))
+            widths = [
+                min(col.max_width, max(col.min_width, col.get_title_width()))
+                for col in self.columns]
         else:
-            for col in self.columns:
-                col.width = col.min_width
+            widths = [col.min_width for col in self.columns]
 
         for rec in body_records:
-            for col in self.columns:
-                if col.width < col.max_width:
-                    col.width = max(
-                        col.width, min(col.max_width, col.get_cell_text_len(rec))
+            for i, col in enumerate(self.columns):
+                if widths[i] < col.max_width:
+                    widths[i] = max(
+                        widths[i], min(col.max_width, col.get_cell_text_len(rec))
                     )
-            if all(col.width == col.max_width for col in self.columns):
+            if all(w == col.max_width for w, col in zip(widths, self.columns)):
                 break
+
+        for col, width in zip(self.columns, widths):
+            col.width = width
 
     def remove_columns(self, columns_names):
         """Remove specified column from self"""
